@@ -1,6 +1,6 @@
 (* Extract/Driver.v - entry points of the extracted model used by harness/ocaml/modeldrv.ml.
    Thin dispatch only; everything here is computation on the models. *)
-From Adm Require Import Base.Util Codec.IdCodecDefs gen.IdTraitsGen Codec.TimeDefs.
+From Adm Require Import Base.Util Codec.IdCodecDefs gen.IdTraitsGen Codec.TimeDefs Heap.Exec gen.PlansGen.
 Local Open Scope N_scope.
 
 Fixpoint assoc_str {A} (k : list N) (l : list (list N * A)) : option A :=
@@ -39,3 +39,9 @@ Definition drv_id_format (name : list N) (vs : list N) : option (list N) :=
 (* parseTimecode / formatTimecode *)
 Definition drv_time_parse (s : list N) : option time := parse_time s.
 Definition drv_time_format (t : time) : list N := format_time t.
+
+(* heap model: one API call on the state, with the plans regenerated from src/document.cpp *)
+Definition drv_exec (o : op) (s : state) : state * (value + exn) := exec gen_plans o s.
+Definition drv_elems (s : state) : list (positive * elem) := PM.elements (elems s).
+Definition drv_docs (s : state) : list (positive * doc) := PM.elements (docs s).
+Definition drv_empty : state := empty_state.
